@@ -346,6 +346,12 @@ def step (st : St) (line : String) : St × String :=
            | some (some m) => if legalMs.any mates then (if mates m then "ok" else "MATE-IN-ONE-NOT-PLAYED") else "ok"
            | some none => if legalMs.any mates then "MATE-IN-ONE-NOT-PLAYED" else "ok"
            | none => "bad-op")
+        | "depthmono", [before, after] =>
+          -- C15 at the level of the search: the record kept for a position never becomes shallower
+          (match before.toNat?, after.toNat? with
+           | none, _ => if before == "none" then "ok" else "bad-op"
+           | some d0, some d1 => if d0 ≤ d1 then "ok" else s!"SHALLOWER-RECORD-REPLACED-DEEPER before={d0} after={d1}"
+           | some d0, none => s!"DEEPER-RECORD-LOST before={d0} after={after}")
         | "safe", [mv] =>
           (match parseOptMv mv with
            | some (some m) =>
@@ -376,6 +382,15 @@ def step (st : St) (line : String) : St × String :=
       else (st, both "ok" verdict)
     | none => (st, modelOnly "bad-op")
   | ["s.afterstop"] => (st, both (toString st.search.nodesAfterStop) "0")
+  | ["s.ttdepth", b] =>   -- depth of the record currently kept for this position (none if there is none)
+    match parseBoard b with
+    | some b =>
+      let G := chessGame st.mg (zkeysOf st.skeys)
+      let m := match st.search.tt.retrieve (G.hash b) with
+        | some e => toString e.depth
+        | none => "none"
+      (st, both m "?")
+    | none => (st, modelOnly "bad-op")
   | ["s.fresh", b, d] =>
     match parseBoard b, d.toNat? with
     | some b, some d =>
